@@ -34,11 +34,19 @@ def bodies_are_drained_until_an_empty_read(ctx):
         f = x.func(qn)
         reads = [c for c in ast.walk(f.node) if isinstance(c, ast.Call) and isinstance(c.func, ast.Attribute) and c.func.attr == 'read'
                  and not (dotted(c.func) or '').startswith('self._fileobj')]
-        ctx.need(reads, f'{qn} no longer reads a body')
-        for rd in reads:
-            lam = next((a for a in ancestors(rd) if isinstance(a, ast.Lambda)), None)
+        # a reader built as a bound call: functools.partial(body.read, n) (canonically FunctionContainer(body.read, n))
+        bound_reads = [c for c in ast.walk(f.node) if isinstance(c, ast.Call) and norm(c.func) == 'FunctionContainer' and c.args
+                       and isinstance(c.args[0], ast.Attribute) and c.args[0].attr == 'read' and not (dotted(c.args[0]) or '').startswith('self._fileobj')]
+        ctx.need(reads or bound_reads, f'{qn} no longer reads a body')
+        for rd in bound_reads + reads:
+            lam = rd if rd in bound_reads else next((a for a in ancestors(rd) if isinstance(a, ast.Lambda)), None)
             if lam is not None:
                 it = lam._parent
+                if isinstance(it, ast.Assign) and len(it.targets) == 1 and isinstance(it.targets[0], ast.Name):
+                    # the reader is kept in a local first: read_chunk = ...; iter(read_chunk, b'')
+                    uses = [x for x in own_nodes(f.node) if isinstance(x, ast.Name) and x.id == it.targets[0].id and isinstance(x.ctx, ast.Load)]
+                    if len(uses) == 1 and isinstance(uses[0]._parent, ast.Call):
+                        lam, it = uses[0], uses[0]._parent
                 ok = isinstance(it, ast.Call) and isinstance(it.func, ast.Name) and it.func.id == 'iter' and len(it.args) == 2 and it.args[0] is lam \
                     and isinstance(it.args[1], ast.Constant) and it.args[1].value == b''
                 loop = None
